@@ -1277,3 +1277,44 @@ Example sum_guard_nontrivial :
   | _, _, _, _ => False
   end.
 Proof. vm_compute. repeat split. Qed.
+
+(* ------------------------------------------------------------------------------------ *)
+(* captures: TX.0-9 seen by a match's actions are that value's captures                 *)
+(* ------------------------------------------------------------------------------------ *)
+Lemma itoa_inj a b : itoa a = itoa b -> a = b.
+Proof. intro H. rewrite <- (itoa_val a), <- (itoa_val b), H. reflexivity. Qed.
+
+Lemma fold_setindex_other caps : forall m k,
+  (forall c, In c caps -> itoa (fst c) <> k) ->
+  tx_get (fold_left (fun m c => tx_setindex0 m (itoa (fst c)) (snd c)) caps m) k = tx_get m k.
+Proof.
+  induction caps as [|c r IH]; intros m k H; cbn [fold_left]; [reflexivity|].
+  rewrite IH by (intros c0 Hc0; apply H; right; exact Hc0).
+  apply tx_get_setindex0_other. intro Heq. exact (H c (or_introl eq_refl) (eq_sym Heq)).
+Qed.
+
+(* every field the operator reports (the empty string of a group that did not participate
+   included) is the first value of TX.<index> in the state handed to the match's actions *)
+Lemma apply_caps_get caps s i v :
+  s_capture s = true -> NoDup (map fst caps) -> In (i, v) caps ->
+  exists rest, tx_get (s_tx (apply_caps caps s)) (itoa i) = v :: rest.
+Proof.
+  intros Hc Hnd Hin. unfold apply_caps. rewrite Hc. cbn [st_with_tx s_tx]. generalize (s_tx s).
+  induction caps as [|c r IH]; intro m; [contradiction|]. cbn [fold_left map] in *.
+  inversion Hnd as [|? ? Hn Hr]; subst. destruct Hin as [->|Hin].
+  - cbn [fst snd]. rewrite fold_setindex_other.
+    + apply tx_get_setindex0_same.
+    + intros c Hc0 Heq. apply itoa_inj in Heq. apply Hn. rewrite <- Heq. apply in_map. exact Hc0.
+  - apply IH; assumption.
+Qed.
+
+Lemma eval_cands_step opid op_eval e (l : link opid) lvl o neg vn key carg r s acc :
+  eval_cands op_eval e l lvl o neg ((vn, key, carg) :: r) s acc =
+    let '(res, caps) := op_eval o e s carg in
+    let s1 := apply_caps caps s in
+    if xorb res neg then
+      let s2 := on_match e l lvl true vn key carg s1 in
+      eval_cands op_eval e l lvl o neg r s2
+        (mk_md e l (negb (l_parent l =? 0)%Z || negb (l_haschain l)) vn key carg s2 :: acc)
+    else eval_cands op_eval e l lvl o neg r s1 acc.
+Proof. reflexivity. Qed.
